@@ -782,6 +782,16 @@ impl<'a> Lifter<'a> {
                     let plist: Vec<String> = self.params.iter().map(|(n, _)| n.clone()).collect();
                     return Ok(v(format!("{hname}({})", plist.join(", ")), &ty));
                 }
+                if name == "__vx_zeros_like" {
+                    // (synthetic, L24b) the additive identity of an accumulator: 0 or an array of zeros of its length
+                    let var = m.mac.tokens.to_string().trim().to_string();
+                    let ty = self.lookup(&var).ok_or(format!("zeros_like of unbound `{var}`"))?;
+                    return match ty.as_str() {
+                        "real" => Ok(v("0real", "real")),
+                        "RArr" => Ok(v(format!("RArr {{ len: {var}.len, at: |i__: int| 0real }}"), "RArr")),
+                        _ => unsupported("accumulator type", e),
+                    };
+                }
                 if name == "unreachable" {
                     return Ok(v("arbitrary()", "?"));
                 }
@@ -1269,7 +1279,7 @@ impl<'a> Lifter<'a> {
         }
         let (lo, hi) = (r.start.as_ref()?, r.end.as_ref()?);
         let accs = Self::assigned_vars(&f.body);
-        if accs.is_empty() || !accs.iter().all(|a| self.lookup(a).as_deref() == Some("real")) {
+        if accs.is_empty() || !accs.iter().all(|a| matches!(self.lookup(a).as_deref(), Some("real") | Some("RArr"))) {
             return None;
         }
         fn shape_ok(b: &syn::Block, accs: &[String]) -> bool {
@@ -1284,6 +1294,18 @@ impl<'a> Lifter<'a> {
                     let Some(id) = p.path.get_ident() else { return false };
                     let rhs = Lifter::idents_of(&bin.right);
                     accs.contains(&id.to_string()) && !accs.iter().any(|a| rhs.contains(a))
+                }
+                // `acc = acc + e;`
+                syn::Stmt::Expr(syn::Expr::Assign(asg), _) => {
+                    let syn::Expr::Path(p) = &*asg.left else { return false };
+                    let Some(id) = p.path.get_ident() else { return false };
+                    let syn::Expr::Binary(bin) = &*asg.right else { return false };
+                    if !matches!(bin.op, syn::BinOp::Add(_)) {
+                        return false;
+                    }
+                    let lhs_is_acc = matches!(&*bin.left, syn::Expr::Path(q) if q.path.get_ident() == Some(id));
+                    let rhs = Lifter::idents_of(&bin.right);
+                    accs.contains(&id.to_string()) && lhs_is_acc && !accs.iter().any(|a| rhs.contains(a))
                 }
                 syn::Stmt::Expr(syn::Expr::ForLoop(inner), _) => {
                     let mut rg = &*inner.expr;
@@ -1840,7 +1862,7 @@ impl<'a> Lifter<'a> {
                     // every accumulator starts at zero inside the summand (only the value of `a` is used)
                     let mut stmts: Vec<syn::Stmt> = Vec::new();
                     for b in &accs {
-                        stmts.push(syn::parse_str(&format!("let mut {b} = 0.0;")).map_err(|e| e.to_string())?);
+                        stmts.push(syn::parse_str(&format!("let mut {b} = __vx_zeros_like!({b});")).map_err(|e| e.to_string())?);
                     }
                     for st in &f.body.stmts {
                         match st {
@@ -1856,10 +1878,28 @@ impl<'a> Lifter<'a> {
                     self.env.pop();
                     self.closure_base.pop();
                     let body = body?;
-                    if body.ty != "real" {
-                        return Err(format!("construct outside rule list (lift): accumulation loop with summand of type {}", body.ty));
+                    let aty = self.lookup(a).unwrap_or_default();
+                    if body.ty != aty {
+                        return Err(format!("construct outside rule list (lift): accumulation loop with summand of type {} for an accumulator of type {aty}", body.ty));
                     }
-                    let sum = if lo_v.text == "0int" {
+                    let sum = if self.named_sums && lo_v.text == "0int" {
+                        // `named_sums`: the summand S_a(i) is a named function (contracts and lemmas can refer to it)
+                        let mut ids = Self::idents_of(&f.body);
+                        ids.extend(accs.iter().cloned());
+                        let cl = self.hoist_summand(&ids, &iv, &body);
+                        if aty == "RArr" {
+                            format!("RArr {{ len: {a}.len, at: |g__: int| rsum({}, |i__h: int| ((({cl})(i__h)).at)(g__)) }}", hi_v.text)
+                        } else {
+                            format!("rsum({}, {cl})", hi_v.text)
+                        }
+                    } else if aty == "RArr" {
+                        // an array accumulator: the sum is taken entry by entry
+                        if lo_v.text == "0int" {
+                            format!("RArr {{ len: {a}.len, at: |g__: int| rsum({}, |{iv}: int| (({}).at)(g__)) }}", hi_v.text, body.text)
+                        } else {
+                            format!("RArr {{ len: {a}.len, at: |g__: int| rsum({1} - {0}, |k__: int| {{ let {iv} = {0} + k__; (({2}).at)(g__) }}) }}", lo_v.text, hi_v.text, body.text)
+                        }
+                    } else if lo_v.text == "0int" {
                         format!("rsum({}, |{iv}: int| {})", hi_v.text, body.text)
                     } else {
                         format!("rsum({1} - {0}, |k__: int| {{ let {iv} = {0} + k__; {2} }})", lo_v.text, hi_v.text, body.text)
@@ -1867,15 +1907,16 @@ impl<'a> Lifter<'a> {
                     sums.push((a.clone(), sum));
                 }
                 self.note("L24", e.span(), "accumulation loop (several accumulators / nested) lifted to sums over the index range");
-                for a in &accs {
-                    self.bind(a, "real");
-                }
                 let r = self.rest(rest, cont)?;
                 // the sums are formed from the values before the loop (the summands do not read the accumulators), then
                 // the accumulators are rebound, then the rest follows
                 let mut binds = String::new();
                 for (a, _) in &sums {
-                    binds.push_str(&format!("let {a} = {a} + {a}__sum; "));
+                    if self.lookup(a).as_deref() == Some("RArr") {
+                        binds.push_str(&format!("let {a} = RArr {{ len: {a}.len, at: |g__: int| ({a}.at)(g__) + ({a}__sum.at)(g__) }}; "));
+                    } else {
+                        binds.push_str(&format!("let {a} = {a} + {a}__sum; "));
+                    }
                 }
                 let mut out = format!("{{ {binds}{} }}", r.text);
                 for (a, sum) in sums.iter().rev() {
@@ -2348,7 +2389,7 @@ impl<'a> Lifter<'a> {
                 return Ok(v(if last == "zero" { "0real" } else { "1real" }.to_string(), "real"));
             }
             // `D::from(x)` where the (dual-number) type D is lifted to real and x is a real: the identity
-            "from" if p.path.segments.len() == 2 && c.args.len() == 1 && self.reg.types.get(&first).map(|t| t == "real").unwrap_or(false) => {
+            "from" | "from_re" if p.path.segments.len() == 2 && c.args.len() == 1 && self.reg.types.get(&first).map(|t| t == "real").unwrap_or(false) => {
                 let x = self.expr(&c.args[0])?;
                 if x.ty == "real" {
                     return Ok(x);
@@ -3047,6 +3088,8 @@ impl<'a> Lifter<'a> {
                 return unsupported("powi", whole);
             }
             ("len", "RArr") => return Ok(v(format!("{}.len", recv.text), "int")),
+            // the shape of a one-dimensional array is its length
+            ("raw_dim", "RArr") if args.is_empty() => return Ok(v(format!("{}.len", recv.text), "int")),
             ("len", "Seq<int>") => return Ok(v(format!("({}.len() as int)", recv.text), "int")),
             ("sum", "RArr") => {
                 // the summand of a compound array expression is a named function (lemmas can then name it); only in units
@@ -3410,6 +3453,11 @@ pub fn lift_fn(ctx: &mut Ctx, blk: &Block) -> Result<(String, Value), String> {
     }
     let (file, path) = (blk.args[0].clone(), blk.args[1].clone());
     ctx.load(&file)?;
+    // `consts_from=<file>[;<file>]`: module constants the function imports from other files (with `const_values`)
+    let consts_from: Vec<String> = blk.opt("consts_from").map(|t| t.split(';').filter(|x| !x.is_empty()).map(|x| x.to_string()).collect()).unwrap_or_default();
+    for cf in &consts_from {
+        ctx.load(cf)?;
+    }
     let src = ctx.src(&file).to_string();
     let offs = Offsets::new(&src);
     // NB: `ctx.ast` borrows ctx immutably; registry is read-only during the lift
@@ -3539,6 +3587,8 @@ pub fn lift_fn(ctx: &mut Ctx, blk: &Block) -> Result<(String, Value), String> {
             }
             let mut needed = Ids(vec![]);
             syn::visit::Visit::visit_block(&mut needed, &body_blk);
+            // the closure's own parameter shadows an outer binding of the same name
+            needed.0.retain(|n| *n != cl_param);
             let mut keep: Vec<syn::Stmt> = Vec::new();
             for st in f.block.stmts[..k].iter().rev() {
                 if let syn::Stmt::Local(l) = st {
@@ -3829,53 +3879,123 @@ pub fn lift_fn(ctx: &mut Ctx, blk: &Block) -> Result<(String, Value), String> {
                 }
             }
         }
-        // L29d: immutable `let`s directly before the binding (same block) that the initialiser reads and the directive does
-        // not list are pulled in front of it (adjacent only, like L28b) - a split initialiser keeps its anchor
+        // L29d: immutable `let`s of the same block, before the binding / assignment, that the initialiser reads and the
+        // directive does not list are pulled in front of it - provided no statement between such a `let` and the anchor
+        // assigns anything the `let` reads (a split initialiser keeps its anchor)
         let mut pulled: Vec<syn::Stmt> = Vec::new();
-        if !lname.starts_with('=') {
-            struct FindBlk<'x> { name: String, found: Option<(&'x syn::Block, usize)> }
+        {
+            // the block and the index of the statement that holds the anchor (the `let`, or the n-th assignment)
+            struct FindBlk<'x> { name: String, assign: bool, skip: usize, found: Option<(&'x syn::Block, usize)> }
+            impl<'ast> FindBlk<'ast> {
+                fn is_anchor(&mut self, st: &'ast syn::Stmt) -> bool {
+                    if !self.assign {
+                        if let syn::Stmt::Local(l) = st {
+                            let id = match &l.pat {
+                                syn::Pat::Ident(pi) => Some(pi.ident.to_string()),
+                                syn::Pat::Type(pt) => match &*pt.pat { syn::Pat::Ident(pi) => Some(pi.ident.to_string()), _ => None },
+                                _ => None,
+                            };
+                            return id.as_deref() == Some(self.name.as_str()) && l.init.is_some();
+                        }
+                        return false;
+                    }
+                    let syn::Stmt::Expr(e, _) = st else { return false };
+                    let left = match e {
+                        syn::Expr::Assign(a) => &*a.left,
+                        syn::Expr::Binary(b) if matches!(b.op, syn::BinOp::AddAssign(_) | syn::BinOp::SubAssign(_)) => &*b.left,
+                        _ => return false,
+                    };
+                    let base = if let syn::Expr::Index(ix) = left { &*ix.expr } else { left };
+                    if matches!(base, syn::Expr::Path(p) if p.path.is_ident(&self.name)) {
+                        if self.skip == 0 {
+                            return true;
+                        }
+                        self.skip -= 1;
+                    }
+                    false
+                }
+            }
             impl<'ast> syn::visit::Visit<'ast> for FindBlk<'ast> {
                 fn visit_block(&mut self, b: &'ast syn::Block) {
                     if self.found.is_none() {
                         for (k, st) in b.stmts.iter().enumerate() {
-                            if let syn::Stmt::Local(l) = st {
-                                let id = match &l.pat {
-                                    syn::Pat::Ident(pi) => Some(pi.ident.to_string()),
-                                    syn::Pat::Type(pt) => match &*pt.pat { syn::Pat::Ident(pi) => Some(pi.ident.to_string()), _ => None },
-                                    _ => None,
-                                };
-                                if id.as_deref() == Some(self.name.as_str()) && l.init.is_some() {
-                                    self.found = Some((b, k));
-                                    return;
-                                }
+                            if self.is_anchor(st) {
+                                self.found = Some((b, k));
+                                return;
+                            }
+                            // nested blocks of earlier statements are searched in source order
+                            syn::visit::visit_stmt(self, st);
+                            if self.found.is_some() {
+                                return;
                             }
                         }
                     }
-                    syn::visit::visit_block(self, b);
                 }
             }
-            let mut fb = FindBlk { name: lname.to_string(), found: None };
+            let (aname, assign, skip) = match lname.strip_prefix('=') {
+                Some(a) => match a.split_once('#') { Some((x, n)) => (x.to_string(), true, n.parse::<usize>().unwrap_or(0)), None => (a.to_string(), true, 0) },
+                None => (lname.to_string(), false, 0),
+            };
+            let mut fb = FindBlk { name: aname, assign, skip, found: None };
             syn::visit::Visit::visit_block(&mut fb, f.block);
-            if let Some((b, mut k)) = fb.found {
-                while k > 0 {
+            if let Some((b, k0)) = fb.found {
+                loop {
                     let mut reads = Vars(vec![]);
                     syn::visit::Visit::visit_expr(&mut reads, &init);
                     for st in &pulled {
                         syn::visit::Visit::visit_stmt(&mut reads, st);
                     }
-                    let mut ok = false;
-                    if let syn::Stmt::Local(l) = &b.stmts[k - 1] {
-                        if let (syn::Pat::Ident(pi), Some(_)) = (&l.pat, &l.init) {
-                            let n = pi.ident.to_string();
-                            ok = pi.mutability.is_none() && reads.0.contains(&n) && !params.iter().any(|(p, _)| *p == n);
+                    let mut own_pulled: Vec<String> = Vec::new();
+                    for st in &pulled {
+                        if let syn::Stmt::Local(l) = st {
+                            if let syn::Pat::Ident(pi) = &l.pat {
+                                own_pulled.push(pi.ident.to_string());
+                            }
                         }
                     }
-                    if !ok {
-                        break;
+                    let mut picked: Option<usize> = None;
+                    for k in (0..k0).rev() {
+                        if let syn::Stmt::Local(l) = &b.stmts[k] {
+                            if let (syn::Pat::Ident(pi), Some(li)) = (&l.pat, &l.init) {
+                                let n = pi.ident.to_string();
+                                if pi.mutability.is_none() && reads.0.contains(&n) && !params.iter().any(|(p, _)| *p == n) && !own_pulled.contains(&n) {
+                                    // nothing between this `let` and the anchor may assign what the `let` reads
+                                    let lreads = Lifter::idents_of(&li.expr);
+                                    let between = syn::Block { brace_token: Default::default(), stmts: b.stmts[k + 1..k0].to_vec() };
+                                    let assigned = Lifter::assigned_vars(&between);
+                                    let mut index_assigned: Vec<String> = Vec::new();
+                                    for st in &between.stmts {
+                                        if let syn::Stmt::Expr(syn::Expr::Assign(a), _) = st {
+                                            if let syn::Expr::Index(ix) = &*a.left {
+                                                if let syn::Expr::Path(p) = &*ix.expr {
+                                                    if let Some(i) = p.path.get_ident() {
+                                                        index_assigned.push(i.to_string());
+                                                    }
+                                                }
+                                            }
+                                        }
+                                    }
+                                    if !assigned.iter().chain(index_assigned.iter()).any(|a| lreads.contains(a) || *a == n) {
+                                        picked = Some(k);
+                                        break;
+                                    }
+                                }
+                            }
+                        }
                     }
-                    pulled.insert(0, b.stmts[k - 1].clone());
-                    k -= 1;
+                    match picked {
+                        Some(k) => {
+                            // keep source order among the pulled statements
+                            let pos = pulled.iter().position(|_| false).unwrap_or(0);
+                            let _ = pos;
+                            pulled.push(b.stmts[k].clone());
+                        }
+                        None => break,
+                    }
                 }
+                // source order: the statements were collected from the anchor backwards by need, sort by position
+                let order = |st: &syn::Stmt| b.stmts.iter().position(|x| x.to_token_stream().to_string() == st.to_token_stream().to_string()).unwrap_or(0);
+                pulled.sort_by_key(order);
             }
         }
         let mut vs = Vars(vec![]);
@@ -4075,7 +4195,7 @@ pub fn lift_fn(ctx: &mut Ctx, blk: &Block) -> Result<(String, Value), String> {
             closure_base: vec![],
             named_sums: blk.flag("named_sums"),
             consts: if blk.flag("const_values") {
-                ctx.files[&file].1.items.iter().filter_map(|it| match it { syn::Item::Const(c) => Some((c.ident.to_string(), (*c.expr).clone())), _ => None }).collect()
+                std::iter::once(&file).chain(consts_from.iter()).flat_map(|f| ctx.files[f].1.items.iter()).filter_map(|it| match it { syn::Item::Const(c) => Some((c.ident.to_string(), (*c.expr).clone())), _ => None }).collect()
             } else { HashMap::new() },
             const_stack: vec![],
             dirty_captured: vec![],
